@@ -471,6 +471,207 @@ proof { assert(refined(tm, old, pv(__res@), org, partition@.len() as int)); }
 """),
     ])
 
+create_stub = Fn(F_MIN, 'Minimizer', 'create_from_partition', ret='r', props=P, external_body=True, trusted_reason='TEMPORARY: under construction',
+    spec="""
+requires
+    d_wf(dfa), tm_ok(dfa, transitions@), part_ok(pv(partition@), dfa.states@.len() as int), all_nonempty(pv(partition@)),
+    acc_homog(dfa, pv(partition@)), self_stable(transitions@, pv(partition@)), exists|g: int| in_grp(pv(partition@), g, 0),
+ensures
+    minimized(dfa, r), r.states@.len() == partition@.len(),
+    r.terminal_ids == dfa.terminal_ids, r.lookaheads == dfa.lookaheads, r.patterns == dfa.patterns,
+""")
+
+minimize = Fn(F_MIN, 'Minimizer', 'minimize', ret='r', props=P, attrs='#[verifier::loop_isolation(false)] #[verifier::allow_complex_invariants]',
+    spec="""
+requires d_wf(dfa), !dfa.end_states@[0].0
+ensures
+    // the result is the quotient of the automaton by a stable partition that never merges states accepting different token types (or an
+    // accepting with a non-accepting state); group 0 holds the start state; no more states than before
+    minimized(dfa, r), r.states@.len() <= dfa.states@.len(),
+    r.terminal_ids == dfa.terminal_ids, r.lookaheads == dfa.lookaheads, r.patterns == dfa.patterns,
+""",
+    edits=TRACE + [
+        Ins('body_start', None, """
+broadcast use axiom_stateid_cmp, axiom_ccid_cmp;
+let ghost d = dfa;
+let ghost n = dfa.states@.len() as int;
+"""),
+        Ins('after_stmt', 'let mut transitions = $_;', """
+proof { assert(tm_upto(d, transitions@, 0, -1)); }
+"""),
+        Wrap('E13+E11', 'dfa.states.iter().enumerate().for_each(|(id, state)| {', """
+let mut __i: usize = 0;
+while __i < dfa.states.len()
+    //@label minimize.collect_states
+    invariant 0 <= __i <= n, d == dfa, n == dfa.states@.len(), d_wf(d), tm_upto(d, transitions@, __i as int, -1),
+    decreases n - __i
+{
+    let id: usize = __i;
+    let state = &dfa.states[__i];
+    __i += 1;
+    let ghost trs = d.states@[id as int].transitions@;
+""", """    proof {
+        assert(tm_upto(d, transitions@, id as int + 1, -1)) by {
+            let tm = transitions@;
+            assert forall|s: StateID, cc: CharClassID, t: StateID| #[trigger] tm_edge(tm, s, cc, t) <==>
+                ((s.0 < id + 1 && d.states@[s.0 as int].transitions@.contains((cc, StateSetID(t.0))))
+                 || (s.0 == id + 1 && exists|jj: int| 0 <= jj < -1 && jj < d.states@[id as int + 1].transitions@.len() && #[trigger] d.states@[id as int + 1].transitions@[jj] == (cc, StateSetID(t.0)))) by {
+                if s.0 == id {
+                    if d.states@[id as int].transitions@.contains((cc, StateSetID(t.0))) {
+                        let jj = choose|jj: int| 0 <= jj < trs.len() && trs[jj] == (cc, StateSetID(t.0));
+                        assert(0 <= jj < trs.len() && jj < trs.len() && trs[jj] == (cc, StateSetID(t.0)));
+                    }
+                }
+            }
+        }
+    }
+}
+""", close_tail=2, why='`v.iter().enumerate().for_each(|(i, x)| { B })` written as the index loop `let mut k = 0; while k < v.len() { let i = k; let x = &v[k]; k += 1; B }` (for_each is the for loop, std definition; E13); body kept verbatim'),
+        Replace('E14', 'transitions.entry((id as StateIDBase).into()).or_default();', """{
+    let __k: StateID = (id as StateIDBase).into();
+    let ghost tm_prev = transitions@;
+    proof { assert(__k == StateID(id as u32)); assert(!tm_prev.contains_key(__k)); }
+    if !transitions.contains_key(&__k) { transitions.insert(__k, Default::default()); }
+    proof {
+        assert(tm_upto(d, transitions@, id as int, 0)) by {
+            let tm = transitions@;
+            assert forall|s: StateID, cc: CharClassID, t: StateID| #[trigger] tm_edge(tm, s, cc, t) <==>
+                ((s.0 < id && d.states@[s.0 as int].transitions@.contains((cc, StateSetID(t.0))))
+                 || (s.0 == id && exists|jj: int| 0 <= jj < 0 && jj < trs.len() && #[trigger] trs[jj] == (cc, StateSetID(t.0)))) by {
+                if s.0 == id { assert(s == __k); assert(tm[s]@.len() == 0); assert(!tm[s]@.contains_key(cc)); }
+                else { assert(tm.contains_key(s) <==> tm_prev.contains_key(s)); if tm_prev.contains_key(s) { assert(tm[s] == tm_prev[s]); } assert(tm_edge(tm, s, cc, t) <==> tm_edge(tm_prev, s, cc, t)); }
+            }
+        }
+    }
+}""", why='`m.entry(k).or_default();` is `if !m.contains_key(&k) { m.insert(k, Default::default()); }` (std definition of Entry::or_default)'),
+        ForLoop('for t in &state.transitions {', it='__it1', label='minimize.collect_transitions', spec="""
+invariant
+    __it1.obeys_prophetic_iter_laws(), __it1.decrease() is Some,
+    trs == d.states@[id as int].transitions@, 0 <= id < n, *state == d.states@[id as int],
+    __it1.remaining().len() <= trs.len(),
+    forall|q: int| 0 <= q < __it1.remaining().len() ==> *#[trigger] __it1.remaining()[q] == trs[trs.len() - __it1.remaining().len() + q],
+    tm_upto(d, transitions@, id as int, trs.len() - __it1.remaining().len()),
+ensures __it1.remaining().len() == 0,
+decreases __it1.decrease()->0
+"""),
+        Ins('after', 'for t in &state.transitions {', """
+let ghost j0 = trs.len() - __it1.remaining().len() - 1;
+let ghost tm0 = transitions@;
+let ghost sf = StateID(id as u32);
+proof { assert(*t == trs[j0]); assert(tm0.contains_key(sf)); }
+"""),
+        Replace('E14', 't_of_s.entry(t.0).or_default().push(t.1.id().into());', """{
+    let __k = t.0;
+    let __x: StateID = t.1.id().into();
+    match t_of_s.get_mut(&__k) {
+        Some(__v) => { __v.push(__x); }
+        None => { let mut __v: Vec<StateID> = Default::default(); __v.push(__x); t_of_s.insert(__k, __v); }
+    }
+}""", why='`m.entry(k).or_default().push(x)` is `match m.get_mut(&k) { Some(v) => v.push(x), None => { let mut v = Default::default(); v.push(x); m.insert(k, v); } }` (std definition of Entry::or_default)'),
+        Ins('after_stmt', 'let t_of_s = $_;', """
+let ghost m0 = t_of_s@;
+proof { assert(m0 == tm0[sf]@); }
+"""),
+        Ins('after_stmt', 't_of_s.entry(t.0).or_default().push(t.1.id().into());', """
+let ghost m1 = t_of_s@;
+let ghost x0 = StateID(t.1.0);
+proof {
+    assert(m1.contains_key(t.0));
+    assert forall|y: StateID| #[trigger] m1[t.0]@.contains(y) <==> (y == x0 || (m0.contains_key(t.0) && m0[t.0]@.contains(y))) by {
+        if m0.contains_key(t.0) { lemma_push_contains_pair(m0[t.0]@, x0, y); } else { lemma_push_contains_pair(Seq::<StateID>::empty(), x0, y); }
+    }
+    assert forall|cc: CharClassID| cc != t.0 implies (#[trigger] m1.contains_key(cc) <==> m0.contains_key(cc)) && (m0.contains_key(cc) ==> m1[cc] == m0[cc]) by { }
+}
+"""),
+        Ins('after_stmt', 't_of_s.get_mut(&t.0).unwrap().sort();', """
+let ghost m2 = t_of_s@;
+proof {
+    assert(m2.contains_key(t.0));
+    assert forall|y: StateID| #[trigger] m2[t.0]@.contains(y) <==> m1[t.0]@.contains(y) by { }
+    assert forall|cc: CharClassID| cc != t.0 implies (#[trigger] m2.contains_key(cc) <==> m1.contains_key(cc)) && (m1.contains_key(cc) ==> m2[cc] == m1[cc]) by { }
+}
+"""),
+        Ins('after_stmt', 't_of_s.get_mut(&t.0).unwrap().dedup();', """
+let ghost m3 = t_of_s@;
+proof {
+    assert(m3.contains_key(t.0));
+    lemma_dedup_contains(m2[t.0]@);
+    assert forall|y: StateID| #[trigger] m3[t.0]@.contains(y) <==> m2[t.0]@.contains(y) by { }
+    assert forall|cc: CharClassID| cc != t.0 implies (#[trigger] m3.contains_key(cc) <==> m2.contains_key(cc)) && (m2.contains_key(cc) ==> m3[cc] == m2[cc]) by { }
+}
+"""),
+        Ins('block_end', 'for t in &state.transitions {', """
+proof {
+    let tm1 = transitions@;
+    assert(tm1.contains_key(sf) && tm1[sf]@ == m3);
+    assert forall|s: StateID| #[trigger] tm1.contains_key(s) <==> tm0.contains_key(s) by { }
+    assert forall|s: StateID| s.0 != id && tm0.contains_key(s) implies #[trigger] tm1[s] == tm0[s] by { }
+    lemma_tm_step(d, tm0, tm1, id as int, j0, t.0, x0);
+}
+"""),
+        Ins('after_stmt', 'let mut partition_old = $_;', """
+proof {
+    assert(tm_ok(d, transitions@)) by {
+        let tm = transitions@;
+        assert forall|s: StateID, cc: CharClassID, t: StateID| #[trigger] tm_edge(tm, s, cc, t) <==> (s.0 < d.states@.len() && d.states@[s.0 as int].transitions@.contains((cc, StateSetID(t.0)))) by { }
+    }
+    assert(in_grp(pv(partition_old@), 0, 0));
+    assert(all_nonempty(pv(partition_old@))) by {
+        assert forall|g: int| 0 <= g < pv(partition_old@).len() implies set_nonempty(#[trigger] pv(partition_old@)[g]) by {
+            if g == 0 { assert(pv(partition_old@)[0].contains(StateID(0))); }
+            else { assert(grp_nonempty(pv(partition_old@), g)); let s = choose|s: int| #[trigger] in_grp(pv(partition_old@), g, s); assert(pv(partition_old@)[g].contains(StateID(s as u32))); }
+        }
+    }
+    lemma_groups_bounded(pv(partition_old@), n);
+}
+let ghost tm = transitions@;
+"""),
+        LoopSpec('while changed {', """
+invariant
+    d == dfa, tm == transitions@, tm_ok(d, tm), d_wf(d), n == d.states@.len(),
+    part_ok(pv(partition_old@), n), acc_homog(d, pv(partition_old@)), all_nonempty(pv(partition_old@)), partition_old@.len() <= n,
+    !changed ==> pv(partition_new@) == pv(partition_old@) && self_stable(tm, pv(partition_new@)),
+decreases n - partition_old@.len(), (if changed { 1int } else { 0int })
+""", label='minimize.refine'),
+        Ins('after', 'while changed {', """
+let ghost po = pv(partition_old@);
+proof {
+    assert forall|s: StateID, cc: CharClassID, t: StateID| #[trigger] tm_edge(tm, s, cc, t) implies t.0 < n by {
+        let k = choose|k: int| 0 <= k < d.states@[s.0 as int].transitions@.len() && d.states@[s.0 as int].transitions@[k] == (cc, StateSetID(t.0));
+        assert(d.states@[s.0 as int].transitions@[k].1.0 < n);
+    }
+}
+"""),
+        Ins('after_stmt', 'partition_new = $_;', """
+let ghost pn = pv(partition_new@);
+let ghost org = choose|org: Seq<int>| #[trigger] refined(tm, po, pn, org, po.len() as int);
+proof {
+    lemma_refine_final(d, tm, po, pn, org, n);
+    lemma_groups_bounded(pn, n);
+}
+""", occ=2),
+        Replace('U5', 'changed = partition_new != partition_old;', """
+changed = verif_partition_ne(&partition_new, &partition_old);
+proof {
+    if !changed {
+        assert(pn == po);
+        assert(self_stable(tm, pn));
+    } else {
+        if pn.len() == po.len() { assert(pn =~= po); }
+        assert(pn.len() > po.len());
+    }
+}
+""", why='TRUSTED std contract through a wrapper: `!=` on Vec<BTreeSet<StateID>> (element-wise set equality)'),
+        Replace('U5', 'partition_old.clone_from(&partition_new);', 'partition_old = verif_partition_clone(&partition_new);',
+                why='`a.clone_from(&b)` is `a = b.clone()` (std default); clone of a Vec<BTreeSet<StateID>> through a trusted wrapper'),
+        Ins('before', 'Self::create_from_partition(dfa, &partition_new, &transitions)', """
+proof {
+    assert(pv(partition_new@) == pv(partition_old@));
+    assert(has_grp(pv(partition_new@), 0));
+}
+"""),
+    ])
+
 FUNCS = [
     Raw(umin.UNIT['items'][0].text.replace('pub type StateGroup = BTreeSet<StateID>;\n', '').replace('pub struct Minimizer;\n', ''), label='trusted std contract: Iterator::position; derived Ord of StateID'),
     Fn(F_MIN, 'TransitionsToPartitionGroups', 'new', ret='r', props=P, spec='ensures r.0@.len() == 0', external_body=True, trusted_reason='Self::default() of the derived Default: an empty vector (rule E4)'),
@@ -481,6 +682,8 @@ FUNCS = [
     build_sig,
     split_group,
     new_partition,
+    create_stub,
+    minimize,
 ]
 
 UNIT = dict(
